@@ -311,3 +311,48 @@ def replay_params(case):
     obs = _onep("native", label, prog, rw)
     bad = [o for o in obs if o["result"] == "refuted"]
     return f"{case}: " + "; ".join(f"{o['name'].split('[')[0].split('#')[-1]} fails ({o.get('note')}) {o.get('model')}" for o in bad) if bad else None
+
+
+# ----------------------------------------------------------------------------------------------- groups nested in groups (spec level)
+def unit_nested(tier="quick", seed=0):
+    """unpack_circuit_spec / convert_non_adj_beamsplitters / compress_mode_swaps on specs whose groups contain groups (depth 2 and 3): the
+    functions named by the property accept such specs (the compiler does); unpacking must terminate, leave no group and keep the unitary."""
+    import numpy as np
+    from lightworks.sdk.circuit.circuit_utils import unpack_circuit_spec
+    from lightworks.sdk.circuit.compiler import CompiledCircuit
+    from lightworks.sdk.circuit.components import BeamSplitter, Group, PhaseShifter
+    from vf.pyvc.rtc import _time_limit, _Timeout
+    fails, n = [], 0
+
+    def U(spec, nm=3):
+        cc = CompiledCircuit(nm)
+        for s_ in spec:
+            cc.add(s_)
+        return cc.U_full
+
+    def grp(inner):
+        return Group(list(inner), "g", 0, 2, {"input": {}, "output": {}})
+    for depth in (1, 2, 3):
+        inner = [BeamSplitter(0, 2, 0.3, "Rx"), PhaseShifter(1, 0.7)]
+        for _ in range(depth):
+            inner = [PhaseShifter(0, 0.2), grp(inner)]
+        spec = [PhaseShifter(2, 1.1)] + inner
+        n += 1
+        ref = U(spec)
+        try:
+            with _time_limit(10.0):
+                flat = unpack_circuit_spec(spec)
+        except _Timeout:
+            fails.append((dict(nesting_depth=depth), "unpack_circuit_spec did not return within 10 s"))
+            continue
+        if any(isinstance(s_, Group) for s_ in flat):
+            fails.append((dict(nesting_depth=depth), "a group remains after unpacking"))
+        elif not np.allclose(U(flat), ref, atol=1e-12):
+            fails.append((dict(nesting_depth=depth), "unpacking changed the unitary"))
+    o = dict(name="lightworks/sdk/circuit/circuit_utils.py:unpack_circuit_spec#bnd.nested-groups", kind="bnd", cases=n, result="bounded-fail" if fails else "bounded-pass",
+             backend="native", ms=0, note="specs with groups nested 1-3 deep: unpacking terminates, leaves no group, keeps the unitary")
+    if fails:
+        o["failing_cases"] = [str(f[0]) for f in fails]
+        o["model"] = dict(case=fails[0][0], observed=fails[0][1], n_failing=len(fails))
+        o["replayed"] = f"{len(fails)} of {n} cases fail; first {fails[0][0]}: {fails[0][1]}"
+    return dict(status="ok", obligations=[o], summary=f"nested groups: {n} cases")
